@@ -168,12 +168,43 @@ def battery(d, tag, nodes, links, recs, reads, gs, fs, block):
     return res
 
 
+def align_line_start(recs, boundary):
+    """shorten one padding so that some record starts exactly at uncompressed offset `boundary`"""
+    off = 0
+    for j, l in enumerate(recs):
+        if off >= boundary and j > 0:
+            diff = off - boundary
+            prev = recs[j - 1]
+            if prev.endswith("p" * (diff + 1)):
+                recs[j - 1] = prev[: len(prev) - diff]
+                return True
+            return False
+        off += len(l) + 1
+    return False
+
+
 def run_session(job):
     sid, seed, pad, block = job
     rnd = random.Random(seed)
     d = tempfile.mkdtemp(prefix="same_")
     try:
-        nodes, links, recs, reads = make_session(rnd, pad)
+        nodes, links, recs, reads = make_session(rnd, abs(pad))
+        if pad < 0:       # chunk-boundary session: a record starts exactly at 65536 (and the file is longer than that)
+            while sum(len(l) + 1 for l in recs) < 70000:
+                recs = recs + [l.replace("q", "d", 1) for l in recs]
+                reads = reads + [("d" + n[1:], s_) for n, s_ in reads]
+            seen, r2, rd2 = set(), [], []
+            for l, rd in zip(recs, reads):       # unique read names
+                nm = l.split("\t")[0]
+                k = 0
+                while nm in seen:
+                    k += 1
+                    nm = l.split("\t")[0] + f"x{k}"
+                seen.add(nm)
+                r2.append(nm + l[len(l.split("\t")[0]):])
+                rd2.append((nm, rd[1]))
+            recs, reads = r2, rd2
+            align_line_start(recs, 65536)
         cfgs = [("plain", "gfa"), ("bgzf", "gfa"), ("plain", "gz"), ("bgzf", "gz")]
         per = [battery(d, f"c{k}", nodes, links, recs, reads, gs, fs, block) for k, (gs, fs) in enumerate(cfgs)]
         cases = []
@@ -199,6 +230,8 @@ def run(ctx):
         ctx.design_violation("Storage", "Storage_q.cfg", r)
     n = 60 if ctx.thorough else 14
     jobs = [(f"s{k}", ctx.seed * 31337 + k, (6000 if ctx.thorough and k % 3 == 0 else 0), (60000 if ctx.thorough and k % 3 == 0 else 400)) for k in range(n)]
+    # records starting exactly on a 64 KiB boundary of the uncompressed stream, in bgzip-sized (65280) and small blocks
+    jobs += [(f"a{k}", ctx.seed * 977 + k, -3000, blk) for k, blk in enumerate([65280, 65280, 400] if not ctx.thorough else [65280] * 6 + [400] * 2)]
     res = pool_map(run_session, jobs, chunk=1)
     cases = [c for cs in res for c in cs]
     ctx.evaluations += 4 * len(cases)
